@@ -83,6 +83,12 @@ def make_pop(name, date, as_dict):
         for j, q in enumerate(kids):
             q.update({"alter": 1 + 2 * j, "geburtsjahr": 2023 - (1 + 2 * j), "kind": True, "bruttolohn_m": 0.0, "in_ausbildung": (1 + 2 * j) >= 6, "p_id_kindergeld_empf": P[len(structs[0])]["p_id"]})
     df = gs.build_population(P, "2023-01-01")
+    if not as_dict:
+        # the caller's DataFrame holds two columns in a losslessly convertible other dtype (whole euros as integers, ids read
+        # as floats): the conversion must not be written into the caller's table
+        df = df.copy()
+        df["vermögen_bedürft"] = df["vermögen_bedürft"].round().astype(np.int64)
+        df["hh_id"] = df["hh_id"].astype(float)
     if as_dict:
         df = df.copy()
         df.index = pd.Index([101 + 3 * i for i in range(len(df))], name="person")     # the caller's Series carry their own labels
